@@ -1,6 +1,7 @@
 import GB.C17.Proofs
 import GB.C17.Model2
 import GB.C12.Props
+import GB.C07.Model
 import GB.C14.Props
 import GB.Generated.Facts
 import GB.C03.Props
@@ -1183,3 +1184,175 @@ theorem C17_accepted_tcp (c : TcpCase) (h : tcpViolations c = []) :
       cases hr : (decide (500 ≤ c.status)) with
       | true => simp [hi, hr] at h6
       | false => simpa using hr
+
+/-! ### round 7 (wave 7): the last conditional / no-fault-only cores as full equalities -/
+
+/-- `gwsGRPCWebHandler.OnMessage` AS A WHOLE — closed test, the `!receivedMD` branch (`readMD`: the first frame is the
+    header message) and the frame code with its Go index / slice operations — equals C08's total model for every
+    `mdOk`, every state and every frame. UNCONDITIONAL (`C17_gws_onmessage_is_C08` needed `receivedMD = true`). -/
+theorem C17_gws_onmessage_full_is_C08 (mdOk : Bytes → Bool) (st : GB.C08.WS) (data : Bytes) :
+    gwsOnMessageFull mdOk st data = .ok (GB.C08.onMessage mdOk st data) := by
+  cases hmd : st.receivedMD with
+  | true =>
+    have h := C17_gws_onmessage_is_C08 mdOk st data hmd
+    unfold gwsOnMessageFull
+    cases hc : st.closed with
+    | true => unfold GB.C08.onMessage; simp [hc]
+    | false => simpa [hmd] using h
+  | false =>
+    unfold gwsOnMessageFull gwsReadMD GB.C08.onMessage
+    cases hc : st.closed with
+    | true => simp
+    | false => cases hok : mdOk data <;> simp [hmd, hok]
+
+/-- … hence no frame in no state (before or after the header message) can make `OnMessage` panic. -/
+theorem C17_gws_onmessage_full_no_panic (mdOk : Bytes → Bool) (st : GB.C08.WS) (data : Bytes) :
+    ∃ r, gwsOnMessageFull mdOk st data = .ok r := ⟨_, C17_gws_onmessage_full_is_C08 mdOk st data⟩
+
+/-- A whole gRPC-WebSocket connection FROM THE INITIAL STATE (no metadata yet, nothing closed), whatever `readMD`
+    accepts: `events` is never closed twice. (`C17_gws_session_no_double_close` started after the header message.) -/
+theorem C17_gws_session_full_no_double_close (mdOk : Bytes → Bool) (frames : List Bytes) :
+    ∃ r, gwsSessionFull mdOk {} false frames = .ok r := by
+  suffices h : ∀ (frames : List Bytes) (st : GB.C08.WS) (evClosed : Bool),
+      (evClosed = true → st.closed = true) → ∃ r, gwsSessionFull mdOk st evClosed frames = .ok r from
+    h frames _ false (by simp)
+  intro frames
+  induction frames with
+  | nil => intro st e _; exact ⟨_, rfl⟩
+  | cons d rest ih =>
+    intro st evClosed inv
+    unfold gwsSessionFull
+    rw [C17_gws_onmessage_full_is_C08 mdOk st d]
+    simp only [bind, Except.bind]
+    have hstep : (st.closed = true → GB.C08.onMessage mdOk st d = (st, [])) ∧
+        ((GB.C08.onMessage mdOk st d).2.contains GB.C08.WSEv.eof = true →
+          (GB.C08.onMessage mdOk st d).1.closed = true) := by
+      unfold GB.C08.onMessage
+      cases hc : st.closed with
+      | true => simp
+      | false =>
+        simp only [Bool.false_eq_true, ↓reduceIte, false_implies, true_and]
+        cases hmd : st.receivedMD with
+        | false => cases hok : mdOk d <;> simp
+        | true =>
+          simp only [Bool.not_true, Bool.false_eq_true, ↓reduceIte]
+          intro hcont
+          cases d with
+          | nil => simp [GB.C08.wsOff] at hcont
+          | cons b t =>
+            simp only at hcont ⊢
+            cases hb : (b == 1) with
+            | true => rfl
+            | false =>
+              exfalso
+              simp only [hb, Bool.false_eq_true, ↓reduceIte, List.append_nil] at hcont
+              repeat' (split at hcont)
+              all_goals simp at hcont
+    obtain ⟨h2, h3⟩ := hstep
+    cases hc : st.closed with
+    | true =>
+      rw [h2 hc]
+      simp only [List.contains_nil, Bool.false_eq_true, ↓reduceIte]
+      exact ih st evClosed inv
+    | false =>
+      have hev : evClosed = false := by
+        cases evClosed with
+        | false => rfl
+        | true => have := inv rfl; rw [hc] at this; cases this
+      subst hev
+      cases hcont : (GB.C08.onMessage mdOk st d).2.contains GB.C08.WSEv.eof with
+      | true =>
+        simp only [↓reduceIte, Bool.false_eq_true]
+        exact ih _ true (fun _ => h3 hcont)
+      | false =>
+        simp only [Bool.false_eq_true, ↓reduceIte]
+        exact ih _ false (by simp)
+
+/-- `grpcadapter.decodeTimeout` with every index expression explicit (`s[size-1]`, the digit loop's `s[i]`,
+    `s[:size-1]`) EQUALS C12's total model for every string: each early return of the code is a `none` of the model
+    (`s[size-1]` is `getLast?`, the loop is `dropLast.all isDigit`), and nothing faults. -/
+theorem C17_decode_timeout_is_C12 (s : Bytes) : decodeTimeoutIdx s = .ok (GB.C12.decodeTimeout s) := by
+  unfold decodeTimeoutIdx
+  simp only
+  split
+  · rename_i h
+    have : (s.length < GB.C12.minSize || s.length > GB.C12.maxSize) = true := by
+      show (decide (s.length < 2) || decide (s.length > 9)) = true
+      simp only [Bool.or_eq_true, decide_eq_true_eq]; omega
+    unfold GB.C12.decodeTimeout; rw [if_pos this]
+  · rename_i h
+    have h2 : 2 ≤ s.length ∧ s.length ≤ 9 := by omega
+    have hsz : (s.length < GB.C12.minSize || s.length > GB.C12.maxSize) = false := by
+      show (decide (s.length < 2) || decide (s.length > 9)) = false
+      simp only [Bool.or_eq_false_iff, decide_eq_false_iff_not]; omega
+    have hlt : s.length - 1 < s.length := by omega
+    have e1 : (s.length : Int) - 1 = ((s.length - 1 : Nat) : Int) := by omega
+    have hu : goIndex s ((s.length : Int) - 1) = .ok s[s.length - 1] := by rw [e1]; exact goIndex_eq s _ hlt
+    have hlast := getLast?_eq_index s (by omega)
+    have hloop := checkDigitsLoop_eq s (s.length - 1) 0 (by omega)
+    simp only [List.drop_zero] at hloop
+    have hloop : checkDigitsLoop s (s.length - 1) 0 = .ok ((s.take (s.length - 1)).all GB.C12.isDigit) := hloop
+    have hloop' : checkDigitsLoop s (s.length - 1) 0 = .ok (s.dropLast.all GB.C12.isDigit) := by
+      rw [dropLast_eq_take]; exact hloop
+    have hsl : goSliceTo s ((s.length : Int) - 1) = .ok (s.take (s.length - 1)) := by
+      rw [e1]; exact goSliceTo_eq s _ (by omega)
+    rw [hu]
+    simp only [bind, Except.bind]
+    have hmodel : GB.C12.decodeTimeout s =
+        match GB.C12.timeoutUnitToDuration s[s.length - 1] with
+        | none => none
+        | some d =>
+          if !s.dropLast.all GB.C12.isDigit then none
+          else match GB.C12.parseInt10 s.dropLast with
+            | none => none
+            | some t => if d == GB.C12.hour && t > GB.C12.maxHours then some GB.C12.maxInt64 else some (d * t) := by
+      unfold GB.C12.decodeTimeout
+      rw [hsz, hlast]; rfl
+    cases hd : GB.C12.timeoutUnitToDuration s[s.length - 1] with
+    | none => rw [hmodel, hd]
+    | some d =>
+      simp only [hloop', hsl]
+      cases hdig : s.dropLast.all GB.C12.isDigit with
+      | false => rw [hmodel, hd]; simp [hdig]
+      | true => simp
+
+/-- C17's copies of the two key constants and of `ascii.EqualFold` are C07's. -/
+theorem C17_filter_consts_are_C07 : gwPrefix = GB.C07.gwPrefix ∧ binSuffix = GB.C07.binSuffix ∧
+    (∀ a b, eqFold a b = GB.C07.equalFold a b) := ⟨rfl, rfl, fun _ _ => rfl⟩
+
+/-- `ProxyMDFilter.filterRequest`'s key handling with its three slices explicit EQUALS C07's total key functions for
+    every allow-listed key and every configured prefix: the outgoing key is `GB.C07.renameRaw pfx k` (gateway prefix
+    stripped case-insensitively, else the configured prefix added) and the base64 decision is `GB.C07.hasBinSuffix` of it. -/
+theorem C17_filter_key_is_C07 (k pfx : Bytes) :
+    filterKey k pfx = .ok (GB.C07.renameRaw pfx k, GB.C07.hasBinSuffix (GB.C07.renameRaw pfx k)) := by
+  have hstrip : stripGw k pfx = .ok (GB.C07.renameRaw pfx k) := by
+    unfold stripGw GB.C07.renameRaw GB.C07.hasGwPrefix
+    by_cases hk : k.length > gwPrefix.length
+    · have hk' : k.length > GB.C07.gwPrefix.length := hk
+      rw [if_pos hk, goSliceTo_eq k gwPrefix.length (by omega), goSliceFrom_eq k gwPrefix.length (by omega)]
+      simp only [bind, Except.bind, pure, Except.pure, hk', decide_true, Bool.true_and]
+      show (if GB.C07.equalFold (k.take GB.C07.gwPrefix.length) GB.C07.gwPrefix = true then _ else _) = _
+      cases GB.C07.equalFold (k.take GB.C07.gwPrefix.length) GB.C07.gwPrefix <;> rfl
+    · have hk' : ¬ k.length > GB.C07.gwPrefix.length := hk
+      rw [if_neg hk]
+      simp [hk', pure, Except.pure]
+  have hbin : ∀ k1 : Bytes, isBinKey k1 = .ok (GB.C07.hasBinSuffix k1) := by
+    intro k1
+    unfold isBinKey GB.C07.hasBinSuffix
+    by_cases hk : k1.length > binSuffix.length
+    · have hk' : k1.length > GB.C07.binSuffix.length := hk
+      have e : (k1.length : Int) - (binSuffix.length : Int) = ((k1.length - binSuffix.length : Nat) : Int) := by omega
+      rw [if_pos hk, e, goSliceFrom_eq k1 _ (by omega)]
+      simp only [bind, Except.bind, pure, Except.pure, hk', decide_true, Bool.true_and]
+      rfl
+    · have hk' : ¬ k1.length > GB.C07.binSuffix.length := hk
+      rw [if_neg hk]
+      simp [hk', pure, Except.pure]
+  unfold filterKey
+  simp only [hstrip, hbin, bind, Except.bind, pure, Except.pure]
+
+/-- Corollary: the decision the real `filterRequest` takes about base64-decoding a value is C07's `decodeVals` guard. -/
+theorem C17_filter_key_bin_is_C07_decode (k pfx : Bytes) (v : List Bytes) :
+    ∃ k1 isBin, filterKey k pfx = .ok (k1, isBin) ∧
+      GB.C07.decodeVals k1 v = (if isBin then v.filterMap GB.C07.decodeBinHeader else v) :=
+  ⟨_, _, C17_filter_key_is_C07 k pfx, rfl⟩
